@@ -33,14 +33,14 @@ func ShrinkingMap.shrink
   loop 1 invariant held(s.mutex) && newMap != nil && fresh(newMap) && s.m == old(s.m) && (forall k K :: (has(s.m, k) <==> old(has(s.m, k))) && s.m[k] == old(s.m[k]))
   loop 1 invariant forall k K :: has(newMap, k) ==> has(s.m, k) && newMap[k] == s.m[k]
   loop 1 invariant forall k K :: visited(k) ==> has(newMap, k)
-  ensures s.m != nil && held(s.mutex)
+  ensures s.m != nil && held(s.mutex) && fresh(s.m)
   ensures forall k K :: (has(s.m, k) <==> old(has(s.m, k))) && (has(s.m, k) ==> s.m[k] == old(s.m[k]))
 
 func ShrinkingMap.delete
   requires s != nil && s.m != nil && s.opts != nil && held(s.mutex)
   modifies s.m, s.deletedKeys, map(s.m)
   opt assume-no-overflow
-  ensures s.m != nil && held(s.mutex)
+  ensures s.m != nil && held(s.mutex) && (s.m == old(s.m) || fresh(s.m))
   ensures deleted <==> old(has(s.m, key))
   ensures !has(s.m, key)
   ensures forall k K :: k != key ==> (has(s.m, k) <==> old(has(s.m, k))) && (has(s.m, k) ==> s.m[k] == old(s.m[k]))
@@ -59,6 +59,7 @@ func ShrinkingMap.Get
   requires s != nil && unlocked(s.mutex)
   ensures exists <==> has(s.m, key)
   ensures exists ==> value == s.m[key]
+  ensures !exists ==> value == zero(V)
   ensures unlocked(s.mutex)
 
 -- GetOrCreate: the stored value if there is one, otherwise the value the factory returns, stored under the key
@@ -90,7 +91,7 @@ func ShrinkingMap.Delete
   requires s != nil && s.opts != nil && unlocked(s.mutex)
   callback optCondition() (c)
   modifies s.m, s.deletedKeys, map(s.m)
-  ensures s.m != nil
+  ensures s.m != nil && (s.m == old(s.m) || fresh(s.m))
   ensures deleted ==> old(has(s.m, key)) && !has(s.m, key)
   ensures len(optCondition) == 0 ==> (deleted <==> old(has(s.m, key))) && !has(s.m, key)
   ensures forall k K :: k != key ==> (has(s.m, k) <==> old(has(s.m, k))) && (has(s.m, k) ==> s.m[k] == old(s.m[k]))
@@ -101,7 +102,7 @@ func ShrinkingMap.DeleteAndReturn
   opt sequential
   requires s != nil && s.opts != nil && unlocked(s.mutex)
   modifies s.m, s.deletedKeys, map(s.m)
-  ensures s.m != nil
+  ensures s.m != nil && (s.m == old(s.m) || fresh(s.m))
   ensures deleted <==> old(has(s.m, key))
   ensures deleted ==> value == old(s.m[key])
   ensures !has(s.m, key)
